@@ -16,6 +16,12 @@ EXPLANATION = (
 
 
 def check(run):
+    # "the internal events listed as sent in each returned MacroStep": MacroStep.sent_events lists the sent events of every micro step, unfiltered
+    from .c03 import rules_macro
+    run.guard(rules_macro, run, 'C15.6')
+    # "name and parameters, delay included": events are stored as given
+    from .c05 import rules_event_data
+    run.guard(rules_event_data, run, 'C15', '.7')
     prog = run.prog
     r = run.rule('C15.1', "InternalEventListener.__call__ forwards iff name == 'event sent', as Event(sent.name, **sent.data), with one call of its callable")
     li = run.fn('InternalEventListener.__call__')
